@@ -291,3 +291,106 @@ package tor
 //@   modifies r.requested, r.requestedIndex, r.ch, r.torrent
 //@   ensures  [closed] r.torrent == nil && RdOK(r)
 //@   props    C02
+
+// ---- Requested (C10) ----
+// RQ: every entry of the table is a distinct object, and a channel it holds
+// is OPEN and held by no other entry: a waiter is woken by exactly one close,
+// and no close can hit a channel twice.
+//@ spec RQOpen(rs *Requested) bool
+//@   body forall i int :: 0 <= i && i < 4294967296 && rs.pieces[uint32(i)] != nil ==> existing_(rs.pieces[uint32(i)]) && existing_(rs.pieces[uint32(i)].done) && (rs.pieces[uint32(i)].done != nil ==> !closed_(rs.pieces[uint32(i)].done))
+//@ spec RQDistinct(rs *Requested) bool
+//@   body forall i int, j int :: 0 <= i && i < 4294967296 && 0 <= j && j < 4294967296 && i != j && rs.pieces[uint32(i)] != nil && rs.pieces[uint32(j)] != nil ==>
+//@        rs.pieces[uint32(i)] != rs.pieces[uint32(j)] && (rs.pieces[uint32(i)].done == nil || rs.pieces[uint32(i)].done != rs.pieces[uint32(j)].done)
+//@ spec RQ(rs *Requested) bool
+//@   body rs.pieces != nil && RQOpen(rs) && RQDistinct(rs)
+
+// Add: the entry exists afterwards; a consumer priority is recorded exactly
+// once; a waiter gets the entry's open channel; other entries are untouched.
+//@ func (*Requested).Add
+//@   requires rs != nil && RQ(rs)
+//@   modifies heap:map:map[uint32]*github.com/jech/storrent/tor.RequestedPiece*, heap:github.com/jech/storrent/tor.RequestedPiece.*, heap:A:int8, heap:chan#closed
+//@   ensures  [entry]  rs.pieces[index] != nil
+//@   ensures  [prio]   prio > -128 ==> len(rs.pieces[index].prio) == (old(rs.pieces[index]) == nil ? 0 : old(len(rs.pieces[index].prio))) + 1 && rs.pieces[index].prio[len(rs.pieces[index].prio)-1] == prio
+//@   ensures  [idle]   prio == -128 ==> len(rs.pieces[index].prio) == (old(rs.pieces[index]) == nil ? 0 : old(len(rs.pieces[index].prio)))
+//@   ensures  [wait]   want ==> $r0 != nil && !closed_($r0)
+//@   ensures  [chan]   $r0 == rs.pieces[index].done
+//@   ensures  [added]  $r1 == (old(rs.pieces[index]) == nil || prio > -128)
+//@   ensures  [keepchan] old(rs.pieces[index]) != nil && old(rs.pieces[index].done) != nil ==> rs.pieces[index].done == old(rs.pieces[index].done)
+//@   ensures  [keepentry] old(rs.pieces[index]) != nil ==> rs.pieces[index] == old(rs.pieces[index])
+//@   ensures  [others] forall j int :: 0 <= j && j < 4294967296 && uint32(j) != index ==> rs.pieces[uint32(j)] == old(rs.pieces[uint32(j)])
+//@   ensures  [open]   RQOpen(rs)
+//@   ensures  [distinct] RQDistinct(rs)
+//@   props    C10
+
+// del: the entry disappears; a channel it held is closed (its waiters are
+// released, never left hanging); no other entry and no other channel is touched.
+//@ func (*Requested).del
+//@   requires rs != nil && RQ(rs) && rs.pieces[index] != nil
+//@   modifies heap:map:map[uint32]*github.com/jech/storrent/tor.RequestedPiece*, heap:github.com/jech/storrent/tor.RequestedPiece.done, heap:chan#closed
+//@   ensures  [gone]    rs.pieces[index] == nil
+//@   ensures  [woken]   old(rs.pieces[index].done) != nil ==> closed_(old(rs.pieces[index].done))
+//@   ensures  [others]  forall j int :: 0 <= j && j < 4294967296 && uint32(j) != index ==> rs.pieces[uint32(j)] == old(rs.pieces[uint32(j)])
+//@   ensures  [open]    RQOpen(rs)
+//@   ensures  [distinct] RQDistinct(rs)
+//@   props    C10
+
+// Del: withdraws at most one occurrence of the priority; reports cancellation
+// exactly when the entry is removed (and then its waiters are released).
+//@ func (*Requested).Del
+//@   requires rs != nil && RQ(rs)
+//@   modifies heap:map:map[uint32]*github.com/jech/storrent/tor.RequestedPiece*, heap:github.com/jech/storrent/tor.RequestedPiece.*, heap:A:int8, heap:chan#closed
+//@   ensures  [absent]    old(rs.pieces[index]) == nil ==> !$r0
+//@   ensures  [cancelled] $r0 ==> rs.pieces[index] == nil && (old(rs.pieces[index].done) != nil ==> closed_(old(rs.pieces[index].done)))
+//@   ensures  [kept]      !$r0 ==> rs.pieces[index] == old(rs.pieces[index])
+//@   ensures  [atmost1]   !$r0 && rs.pieces[index] != nil ==> len(rs.pieces[index].prio) >= old(len(rs.pieces[index].prio)) - 1 && len(rs.pieces[index].prio) <= old(len(rs.pieces[index].prio))
+//@   ensures  [last]      $r0 ==> old(len(rs.pieces[index].prio)) == 1 && old(rs.pieces[index].prio[0]) == prio
+//@   ensures  [open]      RQOpen(rs)
+//@   ensures  [distinct]  RQDistinct(rs)
+//@   loop 1
+//@     invariant r != nil && r == rs.pieces[index] && r == old(rs.pieces[index]) && len(r.prio) == old(len(rs.pieces[index].prio)) && RQOpen(rs) && RQDistinct(rs)
+//@     invariant [none] forall k int :: 0 <= k && k < $i ==> r.prio[k] != prio
+//@   props    C10
+
+// Done: the piece's waiters are woken (channel closed exactly once and
+// forgotten); an entry nobody wants is pruned, a wanted one stays.
+//@ func (*Requested).Done
+//@   requires rs != nil && RQ(rs)
+//@   modifies heap:map:map[uint32]*github.com/jech/storrent/tor.RequestedPiece*, heap:github.com/jech/storrent/tor.RequestedPiece.done, heap:chan#closed
+//@   ensures  [woken]   old(rs.pieces[index]) != nil && old(rs.pieces[index].done) != nil ==> closed_(old(rs.pieces[index].done))
+//@   ensures  [cleared] rs.pieces[index] != nil ==> rs.pieces[index].done == nil
+//@   ensures  [pruned]  old(rs.pieces[index]) != nil && old(len(rs.pieces[index].prio)) == 0 ==> rs.pieces[index] == nil
+//@   ensures  [wanted]  old(rs.pieces[index]) != nil && old(len(rs.pieces[index].prio)) > 0 ==> rs.pieces[index] == old(rs.pieces[index])
+//@   ensures  [open]    RQOpen(rs)
+//@   ensures  [distinct] RQDistinct(rs)
+//@   props    C10
+
+//@ func (*Requested).DelIdlePiece
+//@   requires rs != nil && RQ(rs)
+//@   modifies heap:map:map[uint32]*github.com/jech/storrent/tor.RequestedPiece*, heap:github.com/jech/storrent/tor.RequestedPiece.done, heap:chan#closed
+//@   ensures  [pruned]  old(rs.pieces[index]) != nil && old(len(rs.pieces[index].prio)) == 0 ==> rs.pieces[index] == nil && (old(rs.pieces[index].done) != nil ==> closed_(old(rs.pieces[index].done)))
+//@   ensures  [wanted]  old(rs.pieces[index]) == nil || old(len(rs.pieces[index].prio)) > 0 ==> rs.pieces[index] == old(rs.pieces[index])
+//@   ensures  [samedone] rs.pieces[index] != nil ==> rs.pieces[index].done == old(rs.pieces[index].done)
+//@   ensures  [others]  forall j int :: 0 <= j && j < 4294967296 && uint32(j) != index ==> rs.pieces[uint32(j)] == old(rs.pieces[uint32(j)])
+//@   ensures  [open]    RQOpen(rs)
+//@   ensures  [distinct] RQDistinct(rs)
+//@   props    C10
+
+//@ func hasPriority
+//@   requires r != nil
+//@   ensures  [idle] prio == -128 ==> $r0
+//@   ensures  [has]  prio != -128 ==> ($r0 == (exists k int :: 0 <= k && k < len(r.prio) && r.prio[k] == prio))
+//@   loop 1
+//@     invariant forall k int :: 0 <= k && k < $i ==> r.prio[k] != prio
+//@   props    C10
+
+// DelIdle: prunes idle entries only: an entry some consumer still wants is never dropped.
+//@ func (*Requested).DelIdle
+//@   requires rs != nil && RQ(rs)
+//@   modifies heap:map:map[uint32]*github.com/jech/storrent/tor.RequestedPiece*, heap:github.com/jech/storrent/tor.RequestedPiece.done, heap:chan#closed
+//@   ensures  [wanted]  forall i int :: 0 <= i && i < 4294967296 && old(rs.pieces[uint32(i)]) != nil && old(len(rs.pieces[uint32(i)].prio)) > 0 ==> rs.pieces[uint32(i)] == old(rs.pieces[uint32(i)])
+//@   ensures  [open]    RQOpen(rs)
+//@   ensures  [distinct] RQDistinct(rs)
+//@   loop 1
+//@     invariant RQOpen(rs) && RQDistinct(rs) && rs.pieces != nil
+//@     invariant [wanted] forall i int :: 0 <= i && i < 4294967296 && old(rs.pieces[uint32(i)]) != nil && old(len(rs.pieces[uint32(i)].prio)) > 0 ==> rs.pieces[uint32(i)] == old(rs.pieces[uint32(i)])
+//@   props    C10
